@@ -150,9 +150,12 @@ func genC17(seed int64, idx int) c17Case {
 		task := fmt.Sprintf("task%d", rnd.Intn(nTasks))
 		shards := 1 + rnd.Intn(6)
 		coll := int64(100 + rnd.Intn(3)) // few ids: same msg id under different tasks happens
+		// channels in allocation order: the numbers wrap around the pool and pass one digit, so the list is usually
+		// NOT in lexicographic order
+		start := rnd.Intn(16)
 		var tgt []string
 		for s := 0; s < shards; s++ {
-			tgt = append(tgt, fmt.Sprintf("by-dev-dml_%d_%dv%d", s, coll, s))
+			tgt = append(tgt, fmt.Sprintf("by-dev-dml_%d_%dv%d", (start+s)%16, coll, s))
 		}
 		part := rnd.Intn(2) == 0
 		id := api.GetDropCollectionMsgID(coll)
@@ -463,6 +466,8 @@ func runC17(tier string) *vf.Run {
 			run.Count("histories_with_3plus_reports_on_one_msg", 1)
 		}
 	}
+	runC17Real(run)
+	run.Rule += " PLUS the real-store part (counters real_store_*): the same implementation on the real meta.EtcdReplicateStore (embedded etcd) with hybrid drop timestamps of today, non-ASCII names and target lists in allocation order; a second instance built on the same store is compared with the first one field by field and must answer a duplicate report alike."
 	run.Floor("histories_with_3plus_reports_on_one_msg", 100)
 	run.Floor("removals_partition_kind", 20)
 	run.Floor("reloads", 50)
